@@ -163,11 +163,28 @@ func runDRBG(x, e *big.Int, reads int) string {
 	want := ref.RFC6979Candidates(x, ref.B32(e), reads)
 	// three consumer behaviours: a fresh buffer per read (all retained and compared at the end), one buffer
 	// reused untouched, one buffer wiped by the consumer between reads (as a sampler scrubbing rejects would)
-	for _, style := range []string{"fresh buffers, retained", "one buffer reused", "one buffer wiped between reads"} {
+	for _, style := range []string{"fresh buffers, retained", "one buffer reused", "one buffer wiped between reads", "refused reads (wrong length) between the reads"} {
 		rd := h(lib.MkSC(x), lib.MkSC(e))
 		var kept [][]byte
 		shared := make([]byte, 32)
 		for i := 0; i < reads; i++ {
+			if style == "refused reads (wrong length) between the reads" {
+				// a read the generator refuses (it serves exactly one 32-byte candidate per read) delivers no
+				// candidate, so it must not consume one either: the candidates DELIVERED stay the RFC 6979 sequence
+				for _, l := range [][]int{{5}, {0, 33}, {31, 64, 1}}[i%3] {
+					func() {
+						defer func() { recover() }()
+						n, err := rd.Read(make([]byte, l))
+						if err == nil && n == l && l != 0 {
+							kept = nil // the generator served an odd-length read: nothing is specified about it; stop judging this style
+							shared = nil
+						}
+					}()
+				}
+				if shared == nil {
+					break
+				}
+			}
 			b := shared
 			if style == "fresh buffers, retained" {
 				b = make([]byte, 32)
